@@ -19,6 +19,18 @@ pub fn apply_plan(
     lockfile_path: Option<&Path>,
     roots: &[TargetRoot],
 ) -> anyhow::Result<DeploymentSnapshot> {
+    apply_plan_impl(home, kind, plan, desired, lockfile_path, roots)
+        .map_err(crate::fs::classify_permission_error)
+}
+
+fn apply_plan_impl(
+    home: &AgentpackHome,
+    kind: &str,
+    plan: &PlanResult,
+    desired: &DesiredState,
+    lockfile_path: Option<&Path>,
+    roots: &[TargetRoot],
+) -> anyhow::Result<DeploymentSnapshot> {
     #[cfg(agentpack_verif)]
     crate::verif_hooks::point("mkdir", &home.snapshots_dir).context("create snapshots dir")?;
     std::fs::create_dir_all(&home.snapshots_dir).context("create snapshots dir")?;
@@ -272,6 +284,10 @@ fn best_root_index<'a>(
 }
 
 pub fn rollback(home: &AgentpackHome, snapshot_id: &str) -> anyhow::Result<DeploymentSnapshot> {
+    rollback_impl(home, snapshot_id).map_err(crate::fs::classify_permission_error)
+}
+
+fn rollback_impl(home: &AgentpackHome, snapshot_id: &str) -> anyhow::Result<DeploymentSnapshot> {
     let target_path = DeploymentSnapshot::path(home, snapshot_id);
     let target_snapshot = DeploymentSnapshot::load(&target_path)
         .with_context(|| format!("load snapshot {}", target_path.display()))?;
